@@ -441,4 +441,100 @@ public class Prim implements ITLCOverrides {
         putLe64(o, 0, r == 0 ? v : rotl64(v, r));
         return seq(o);
     }
+
+    // ------------------------------------------------------------------ AES key schedules (FIPS 197 5.2), checked against spec/Aes.tla
+    static final int[] SBOX = new int[256];
+    static {
+        int[] inv = new int[256];
+        for (int a = 1; a < 256; a++)
+            for (int b = 1; b < 256; b++)
+                if (gmul(a, b) == 1)
+                    inv[a] = b;
+        for (int a = 0; a < 256; a++) {
+            int x = inv[a], y = x;
+            for (int k = 0; k < 4; k++) {
+                x = ((x << 1) | (x >> 7)) & 0xff;
+                y ^= x;
+            }
+            SBOX[a] = y ^ 0x63;
+        }
+    }
+
+    static int gmul(int a, int b) {
+        int p = 0;
+        for (int k = 0; k < 8; k++) {
+            if ((b & 1) != 0)
+                p ^= a;
+            boolean hi = (a & 0x80) != 0;
+            a = (a << 1) & 0xff;
+            if (hi)
+                a ^= 0x1b;
+            b >>= 1;
+        }
+        return p;
+    }
+
+    static byte[][] roundKeys(byte[] key) {
+        int nk = key.length / 4, nr = nk + 6, total = 4 * (nr + 1);
+        int[][] w = new int[total][4];
+        for (int i = 0; i < nk; i++)
+            for (int j = 0; j < 4; j++)
+                w[i][j] = key[4 * i + j] & 0xff;
+        int rcon = 1;
+        for (int i = nk; i < total; i++) {
+            int[] t = w[i - 1].clone();
+            if (i % nk == 0) {
+                int t0 = t[0];
+                t[0] = SBOX[t[1]] ^ rcon;
+                t[1] = SBOX[t[2]];
+                t[2] = SBOX[t[3]];
+                t[3] = SBOX[t0];
+                rcon = gmul(rcon, 2);
+            } else if (nk > 6 && i % nk == 4) {
+                for (int j = 0; j < 4; j++)
+                    t[j] = SBOX[t[j]];
+            }
+            for (int j = 0; j < 4; j++)
+                w[i][j] = w[i - nk][j] ^ t[j];
+        }
+        byte[][] rk = new byte[nr + 1][16];
+        for (int r = 0; r <= nr; r++)
+            for (int c = 0; c < 4; c++)
+                for (int j = 0; j < 4; j++)
+                    rk[r][4 * c + j] = (byte) w[4 * r + c][j];
+        return rk;
+    }
+
+    static byte[] invMixColumns(byte[] s) {
+        byte[] o = new byte[16];
+        for (int c = 0; c < 4; c++) {
+            int a0 = s[4 * c] & 0xff, a1 = s[4 * c + 1] & 0xff, a2 = s[4 * c + 2] & 0xff, a3 = s[4 * c + 3] & 0xff;
+            o[4 * c] = (byte) (gmul(a0, 14) ^ gmul(a1, 11) ^ gmul(a2, 13) ^ gmul(a3, 9));
+            o[4 * c + 1] = (byte) (gmul(a0, 9) ^ gmul(a1, 14) ^ gmul(a2, 11) ^ gmul(a3, 13));
+            o[4 * c + 2] = (byte) (gmul(a0, 13) ^ gmul(a1, 9) ^ gmul(a2, 14) ^ gmul(a3, 11));
+            o[4 * c + 3] = (byte) (gmul(a0, 11) ^ gmul(a1, 13) ^ gmul(a2, 9) ^ gmul(a3, 14));
+        }
+        return o;
+    }
+
+    /** FastRoundKeys(key): sequence of the Nr+1 encryption round keys (= Aes!RoundKeys). */
+    @TLAPlusOperator(identifier = "FastRoundKeys", module = "Prim", warn = false)
+    public static Value fastRoundKeys(final Value key) {
+        byte[][] rk = roundKeys(bytes(key));
+        Value[] e = new Value[rk.length];
+        for (int k = 0; k < rk.length; k++)
+            e[k] = seq(rk[k]);
+        return new TupleValue(e);
+    }
+
+    /** FastDecRoundKeys(key): the decryption schedule slots (= Aes!DecRoundKeys). */
+    @TLAPlusOperator(identifier = "FastDecRoundKeys", module = "Prim", warn = false)
+    public static Value fastDecRoundKeys(final Value key) {
+        byte[][] rk = roundKeys(bytes(key));
+        int nr = rk.length - 1;
+        Value[] e = new Value[rk.length];
+        for (int j = 0; j <= nr; j++)
+            e[j] = seq(j == 0 ? rk[nr] : j == nr ? rk[0] : invMixColumns(rk[nr - j]));
+        return new TupleValue(e);
+    }
 }
